@@ -644,6 +644,26 @@ inline std::string DescribeException()
 	catch (...) { return "[\"nonstd\"]"; }
 }
 
+// A temporary file holding `data` (removed on destruction), for the file entry points of the library
+struct TempFile
+{
+	std::string path;
+	explicit TempFile(const std::string& data)
+	{
+		const char* dir = getenv("TMPDIR");
+		path = std::string(dir && *dir ? dir : "/tmp") + "/vhapiXXXXXX";
+		const int fd = mkstemp(path.data());
+		if (fd < 0) { perror("mkstemp"); exit(3); }
+		size_t done = 0;
+		while (done < data.size()) { const ssize_t w = write(fd, data.data() + done, data.size() - done); if (w <= 0) { perror("write"); exit(3); } done += static_cast<size_t>(w); }
+		close(fd);
+	}
+	std::string Read() const { std::ifstream f(path, std::ios::binary); return std::string((std::istreambuf_iterator<char>(f)), std::istreambuf_iterator<char>()); }
+	~TempFile() { unlink(path.c_str()); }
+	TempFile(const TempFile&) = delete;
+	TempFile& operator=(const TempFile&) = delete;
+};
+
 // Executes the load part of a scenario on one medium; returns the JSON of the observation
 template <class TArchive>
 std::string RunLoad(const JVal& scn, const std::string& doc, const std::string& medium)
@@ -660,6 +680,11 @@ std::string RunLoad(const JVal& scn, const std::string& doc, const std::string& 
 	{
 		auto loadWith = [&](auto& target) {
 			if (medium == "mem") BitSerializer::LoadObject<TArchive>(target, doc, options);
+			else if (medium == "fileapi") {
+				// the file entry point: LoadObjectFromFile(object, path, options) over a real temporary file
+				TempFile tf(doc);
+				BitSerializer::LoadObjectFromFile<TArchive>(target, tf.path, options);
+			}
 			else {
 				auto holder = MakeStream(medium, doc);
 				try { BitSerializer::LoadObject<TArchive>(target, holder.get(), options); }
@@ -696,16 +721,17 @@ std::string RunSave(const JVal& scn)
 	const JVal& root = scn["root"];
 	const std::string rk = root["k"].GetString();
 	Log log;
-	std::string out[2], exc[2] = { "[\"none\"]", "[\"none\"]" };
-	for (int medium = 0; medium < 2; ++medium)
+	std::string out[3], exc[3] = { "[\"none\"]", "[\"none\"]", "[\"none\"]" };
+	for (int medium = 0; medium < 3; ++medium)		// 0 = std::string, 1 = std::ostream, 2 = SaveObjectToFile (real temporary file)
 	{
-		TerminateContext() = std::string(scn["id"].GetString()) + (medium ? "/save-stream" : "/save-mem");
+		TerminateContext() = std::string(scn["id"].GetString()) + (medium == 2 ? "/save-file" : medium ? "/save-stream" : "/save-mem");
 		try
 		{
 			std::ostringstream stream(std::ios::out | std::ios::binary);
 			auto saveWith = [&](auto& value) {
 				if (medium == 0) BitSerializer::SaveObject<TArchive>(value, out[0], options);
-				else { BitSerializer::SaveObject<TArchive>(value, stream, options); out[1] = stream.str(); }
+				else if (medium == 1) { BitSerializer::SaveObject<TArchive>(value, stream, options); out[1] = stream.str(); }
+				else { TempFile tf{ std::string() }; BitSerializer::SaveObjectToFile<TArchive>(value, tf.path, options, true); out[2] = tf.Read(); }
 			};
 			if (rk == "obj") { ScriptObj o(&root["ops"], &log); saveWith(o); }
 			else if (rk == "arr") { ScriptArr a{ &root["ops"], &log, static_cast<size_t>(root["ops"].Size()) }; saveWith(a); }
@@ -724,7 +750,8 @@ std::string RunSave(const JVal& scn)
 		}
 		catch (...) { exc[medium] = DescribeException(); }
 	}
-	return "{\"mem\":" + BytesJson(out[0]) + ",\"stream\":" + BytesJson(out[1]) + ",\"excmem\":" + exc[0] + ",\"excstream\":" + exc[1] + "}";
+	return "{\"mem\":" + BytesJson(out[0]) + ",\"stream\":" + BytesJson(out[1]) + ",\"excmem\":" + exc[0] + ",\"excstream\":" + exc[1] +
+		",\"file\":" + BytesJson(out[2]) + ",\"excfile\":" + exc[2] + "}";
 }
 
 
